@@ -28,7 +28,7 @@ RULE = ('(i) glob matcher: pattern x hostmask pairs, exhaustive up to length 3 (
 TRUSTED = ["Python's re for the atoms the translator emits (differentially tested against the model matcher)",
            're.I is modelled for ASCII letters only (generators use ASCII + non-cased characters)',
            'the reverse index of _hostmaskCache and the _nameCache are not modelled (forward cache compared after every step)',
-           'CacheDict eviction (1000 entries) is outside the explored histories',
+           'CacheDict eviction is modelled (size from table T04); only the hostmask-cache boundary is exercised, by a directed fill of 998 lookups',
            'command layer: callbacks dispatch, commands.wrap converters, password hashing and the capability check are exercised through '
            'the live bot but enter the model as inputs (which account <name> resolves to is modelled; checkPassword / owner capability / '
            'isUserHostmask / unWildcardHostmask results are observed); commands whose lookups hit the Multiple-matches branch are compared '
@@ -47,8 +47,18 @@ LEVEL_TEXT = ('Coq theorems over an executable Gallina model of the hostmask glo
               'secure accounts need a matching mask to log in.  Tie: per-transition refinement check of the real UsersDictionary '
               'against the extracted model + exhaustive '
               'small-alphabet matcher comparison against the real regex translation.')
-LEVEL_NOTE = ('Trusted: Coq kernel, extraction + driver, harness; Python re for the emitted atoms (tested), ASCII-only re.I, forward-only '
-              'cache model, name cache not modelled; clock and timeout are explicit inputs.  Command layer: a refused User plugin command '
+LEVEL_NOTE = ('Trusted: Coq kernel, extraction + driver, harness; Python re for the emitted atoms (tested; since the repair of F27 the '
+              'regexp folds ASCII letters only, and the matcher inputs include letters whose Unicode case mapping crosses ASCII); '
+              'both caches are modelled with CacheDict\'s eviction rule and size (table T04; the boundary "full between the two writes of '
+              'an entry" is in the corpus for the hostmask cache, F28), clock and timeout are explicit inputs.  NOT modelled / not '
+              'verified: the memo layers of ircutils.hostmaskPatternEqual (_patternCache, _hostmaskPatternEqualCache: the matcher is '
+              'compared through the uncached _hostmaskPatternEqual and, inside histories, through the cached one for a few dozen '
+              'patterns only); the name-cache eviction boundary needs about 500 accounts and is modelled but never generated; one network '
+              '(hostmasks, logins and caches are network-agnostic in ircdb: the same hostmask on another network is the same sender); '
+              'logins made without a password by other plugins (NickAuth: services account, GPG: signed token) call the same '
+              'addAuth + setUser and are outside the histories; users.conf load / reload (IrcUserCreator writes hostmasks without '
+              'addHostmask\'s checks, then setUser; logins are not persisted) is C16\'s; hostmask-shaped strings with several ! or @ or '
+              'a trailing newline (isUserHostmask accepts them) are never generated; float clocks (the model clock is an integer).  Command layer: a refused User plugin command '
               'leaves the accounts as they were whatever refuses it, users.setUser included (C04_refused_command_no_trace; F23 and F24 '
               'repaired: every command undoes its edit; only proviso: no lookup of the command hit the Multiple-matches branch), an '
               'accepted hostmask add keeps the coherence invariant; `user set secure` is modelled with its guard pinned (useAuth=False) and '
@@ -501,6 +511,15 @@ def run_history(ctx, mods, hist, model=True, kind='history'):
             if o[0] == 'tick':
                 clock.now += o[1]
                 continue
+            if o[0] == 'fill':
+                # o[2] lookups of recognised senders o[1]<i>!x@y, to bring the hostmask cache near its limit (not stepped against
+                # the model one by one: the steps that follow are, from the snapshot of the filled cache)
+                for i in range(o[2]):
+                    try:
+                        users.getUserId('%s%d!x@y' % (o[1], i))
+                    except Exception:
+                        pass
+                continue
             before = snapshot(users)
             if o[0] == 'nick':
                 # a NICK message from client o[1] seen by the bot (Irc.doNick, supybot.followIdentificationThroughNickChanges)
@@ -598,6 +617,12 @@ def run_history(ctx, mods, hist, model=True, kind='history'):
                                       'detail': 'lookup(%r) = %r but accounts %r all recognise it' % (h, res[1], rec)})
                 elif res[1] == 'KeyError' and len(rec) == 1:
                     fails.append({'step': idx, 'h': h, 'kind': 'missed', 'detail': 'lookup(%r) raised KeyError but account %r recognises it' % (h, rec)})
+            if o[0] in ('set', 'del', 'auth', 'clear') and res[0] == 'raise' and res[1] not in ('DuplicateHostmask', 'ValueError') \
+                    and not (res[1] == 'KeyError' and o[0] != 'set' and o[1] not in dict((i, u) for i, u in before[0])):
+                # users.setUser / delUser / clearAuth fail with an internal error (a half-evicted cache entry): the operation is
+                # refused for a reason that has nothing to do with the accounts
+                fails.append({'step': idx, 'h': '', 'kind': 'internal-error',
+                              'detail': '%r raised %s (cache: %d keys)' % (o[:2], res[1], len(before[1]) + len(before[2]))})
             if o[0] == 'set' and res[0] == 'ok':
                 for h in HOSTS:
                     owners = [i for i, u in after[0] if any(ref_match(m, h) for m in u[1])]
@@ -698,6 +723,9 @@ def _overlapping_globs(inp):
 # so are F25 (secure_stale_login) and F26 (secure_not_undone)
 CLASSES = {'overlapping_globs': _overlapping_globs}
 
+GLOB_CORPUS = [('kevin!*@*', '\u212aevin!u@h'), ('sam!*@*', '\u017fam!u@h'), ('\u212a!*@*', 'k!u@h'), ('\xe9!*@*', '\xc9!u@h'),
+               ('i!*@*', '\u0131!u@h'), ('\u0130!*@*', 'i!u@h'), ('K?!*@*', 'k\u212a!u@h')]
+
 CORPUS = [
     {'timeout': 10, 'ops': [['new'], ['set', 1, ['u1', ['zz!zz@zz'], None, False]], ['auth', 1, 'ab!x@y'], ['lookup', 'ab!x@y'],
                             ['tick', 30], ['lookup', 'ab!x@y']]},
@@ -711,6 +739,16 @@ CORPUS = [
     {'timeout': 10, 'ops': [['new'], ['set', 1, ['u1', ['zz!zz@zz'], None, False]], ['auth', 1, 'ab!x@y'], ['lookup', 'ab!x@y'],
                             ['tick', 8], ['auth', 1, 'q!q@q'], ['lookup', 'q!q@q'], ['lookup', 'ab!x@y'], ['tick', 5], ['lookup', 'ab!x@y'],
                             ['lookup', 'q!q@q']]},
+    # the hostmask cache drops everything when it holds CACHE_MAX keys; an entry is two keys: filled to CACHE_MAX - 1, the first
+    # cached answer for another account leaves only its id -> {hostmask} half; setUser / delUser of that account must still work
+    {'timeout': 0, 'ops': [['new'], ['new'], ['set', 1, ['u1', ['abc*!*@*'], None, False]], ['set', 2, ['u2', ['bob!*@*'], None, False]],
+                           ['fill', 'abc', 998], ['lookup', 'bob!x@y'], ['set', 2, ['u2', ['bob!*@*', 'bobby!*@*'], None, False]],
+                           ['lookup', 'bob!x@y'], ['lookup', 'abc1!x@y']]},
+    {'timeout': 0, 'ops': [['new'], ['new'], ['set', 1, ['u1', ['abc*!*@*'], None, False]], ['set', 2, ['u2', ['bob!*@*'], None, False]],
+                           ['fill', 'abc', 998], ['lookup', 'bob!x@y'], ['cmd', 'abc1!x@y', ['remove', 'u2', 'bob!*@*', 'secret']],
+                           ['lookup', 'bob!x@y']]},
+    {'timeout': 0, 'ops': [['new'], ['new'], ['set', 1, ['u1', ['abc*!*@*'], None, False]], ['set', 2, ['u2', ['bob!*@*'], None, False]],
+                           ['fill', 'abc', 997], ['lookup', 'bob!x@y'], ['lookup', 'abc0!x@y'], ['lookup', 'abcd!x@y'], ['del', 2], ['lookup', 'bob!x@y']]},
     # supybot.followIdentificationThroughNickChanges: the login moves to the new hostmask, it is not copied
     {'timeout': 0, 'follow': True, 'ops': [['new'], ['set', 1, ['u1', ['zz!zz@zz'], None, False]], ['cmd', 'ab!x@y', ['identify', 'u1', '', 'secret']],
                                            ['nick', 'ab!x@y', 'zed'], ['lookup', 'ab!x@y'], ['lookup', 'zed!x@y']]},
@@ -770,6 +808,12 @@ def run(ctx):
         pats = rng.sample(words, 4000)
         pairs = [(p, h) for p in pats for h in rng.sample(words, 120)]
     pairs += [(m, h) for m in MASKS for h in HOSTS]
+    # letters whose Unicode case mapping reaches or leaves ASCII (KELVIN SIGN, LONG S, dotless / dotted i) and cased non-ASCII
+    # letters: for IRC (and for the model) only ASCII letters and the rfc1459 pairs have a case
+    pairs += GLOB_CORPUS
+    uni = ['k', 'K', '\u212a', 's', 'S', '\u017f', 'i', 'I', '\u0131', '\u0130', '\xe9', '\xc9', '*', '?', '!']
+    for _ in range(ctx.n(1500)):
+        pairs.append((''.join(rng.choice(uni) for _ in range(rng.randint(1, 4))), ''.join(rng.choice(uni[:12] + ['!']) for _ in range(rng.randint(1, 4)))))
     for _ in range(ctx.n(1500)):
         pairs.append((''.join(rng.choice(ALPHA + ['b', 'B', 'é', '-', '0']) for _ in range(rng.randint(3, 14))),
                       ''.join(rng.choice(ALPHA[:8] + ['b', 'B', 'é', '-', '0', '!', '@', '.']) for _ in range(rng.randint(3, 14)))))
